@@ -2503,6 +2503,17 @@ impl<'a> Model<'a> {
         height: i32,
         value: &str,
     ) -> Result<(), String> {
+        // the area must be a non-empty block of cells of the sheet
+        if width < 1 || height < 1 {
+            return Err("The area of an array formula needs at least one cell".to_string());
+        }
+        if !(1..=LAST_ROW).contains(&row)
+            || !(1..=LAST_COLUMN).contains(&column)
+            || height > LAST_ROW - row + 1
+            || width > LAST_COLUMN - column + 1
+        {
+            return Err("The area of an array formula must be inside the sheet".to_string());
+        }
         self.prepare_cell_for_user_input(sheet, row, column)?;
         // If value starts with "'" then we force the style to be quote_prefix
         let style_index = self.get_cell_style_index(sheet, row, column)?;
